@@ -90,7 +90,14 @@ func chainShape(m MapLike) string {
 
 func (o *occInst) Key() string {
 	// the real arrangement of the chain (which key sits in which slot), the table length, and the contents
-	return fmt.Sprintf("%v|%d|%v", o.m.ChainKeys(0), o.m.RootBuckets(), o.ref)
+	if ck := o.m.ChainKeys(0); ck != nil {
+		return fmt.Sprintf("%v|%d|%v", ck, o.m.RootBuckets(), o.ref)
+	}
+	// no view of the chains for this tree (structural stub): the order in which Range meets the keys stands
+	// in for the arrangement (bucket order and slot order, holes excepted)
+	var order []int
+	o.m.Range(func(k, v int) bool { order = append(order, k); return true })
+	return fmt.Sprintf("order%v|%d|%v", order, o.m.RootBuckets(), o.ref)
 }
 func (o *occInst) Log() []string { return append([]string{}, o.log...) }
 func (o *occInst) Close()        {}
